@@ -10,6 +10,29 @@ import os, json
 import inputlib
 
 
+def strpool(ctx):
+    """memory safety of the per-connection string pool (private/string_map.h) that every front-end fills from the request
+    and clears between the requests of a keep-alive connection: StrPool.tla (InBounds) + the real class replayed."""
+    ctx.design("Input/StrPool.tla", "StrPool.cfg", workers=4, timeout=300, note="string_pool: InBounds, HeadRegular (page 8, allocations 1..7, <=4 pages)")
+    ctx.design("Input/StrPool.tla", "StrPool_asfound.cfg", workers=2, timeout=300, expect_violation="InBounds", count=False,
+               note="self-test: clear() as it was found (keeps the LAST page) must violate InBounds")
+    exe = ctx.harness("strpool_drv", ["input/strpool_drv.cpp"])
+    t = os.path.join(ctx.work, "strpool.ndjson")
+    rc, out, err = ctx.run_harness(exe, (300, 10) if ctx.quick else (3000, 40), trace=t, timeout=300)
+    if rc != 0:
+        ctx.undecided.append("strpool_drv rc=%s %s" % (rc, err[-300:])); return
+    for x in ctx.validate("Input/StrPoolTrace.tla", "StrPoolTrace.cfg", t):
+        try:
+            ev = json.loads(x["event"])
+        except Exception:
+            ev = {"e": "end"}
+        unsafe = ev.get("e") == "Died" or ev.get("used", 0) + ev.get("free", 0) > ev.get("cap", 1 << 30) or ev.get("off", 0) + ev.get("n", 0) > ev.get("pcap", 1 << 30)
+        if unsafe:
+            ctx.violation("strpool:%s" % ev.get("e"), "string_pool hands out memory beyond the page it was carved from: %s" % x["event"][:200], x["path"])
+        else:
+            ctx.drift.append("string_pool bookkeeping differs from StrPool.tla (still in bounds) at %s" % x["event"][:160])
+
+
 def run(ctx):
     q = ctx.quick
     ctx.assumptions += [
@@ -31,6 +54,7 @@ def run(ctx):
                          ("ConnLifeImplFcgi_F3.cfg", "AtMostOnce"), ("ConnLifeImplFcgi_F3b.cfg", "Answered")):
             ctx.design("Input/ConnLifeImpl.tla", cfg, workers=8, timeout=600, expect_violation=inv, count=False,
                        note="self-test: defect model must violate " + inv)
+    strpool(ctx)
     # ---- Leg B
     flavours = ["hooks"]
     if not q:
